@@ -105,6 +105,28 @@ def rerun_single(task, prop, tier, seed, open_case, env, timeout):
         return True
 
 
+def run_watched(cmd, ef, env, timeout, stall, files):
+    """Runs a worker; raises TimeoutExpired when it exceeds `timeout` or when neither of `files` has grown for `stall`
+    seconds. The second guard exists because the worker's own per-case alarm cannot fire when every thread is blocked inside
+    the sanitizer runtime (seen with ThreadSanitizer's report lock after a racy change corrupted the heap)."""
+    p = subprocess.Popen(cmd, stdout=ef, stderr=subprocess.STDOUT, env=env, cwd=RUNDIR)
+    t0 = last_change = time.time()
+    last = None
+    while True:
+        try:
+            return p.wait(timeout=2)
+        except subprocess.TimeoutExpired:
+            pass
+        sizes = tuple(os.path.getsize(f) if os.path.exists(f) else -1 for f in files)
+        now = time.time()
+        if sizes != last:
+            last, last_change = sizes, now
+        if now - t0 > timeout or now - last_change > stall:
+            p.kill()
+            p.wait()
+            raise subprocess.TimeoutExpired(cmd, now - t0)
+
+
 def run_task(task, prop, tier, seed, timeout):
     """Runs one worker (restarting it after a crash / hang at the next case)."""
     t0 = time.time()
@@ -145,9 +167,8 @@ def run_task(task, prop, tier, seed, timeout):
         args += ["--out", out]
         with open(err, "wb") as ef:
             try:
-                p = subprocess.run([task.exe] + args, stdout=ef, stderr=subprocess.STDOUT, env=env, timeout=timeout,
-                                   cwd=RUNDIR)
-                rc, timed_out = p.returncode, p.returncode == 124
+                rc = run_watched([task.exe] + args, ef, env, timeout, CASE_TIMEOUT[tier] + 60, (out, err))
+                timed_out = rc == 124
             except subprocess.TimeoutExpired:
                 rc, timed_out = -9, True
         open_case = parse_out(out, task)
@@ -163,6 +184,12 @@ def run_task(task, prop, tier, seed, timeout):
             break
         if open_case is None:
             task.inconclusive.append(f"{task.label}: worker exited rc={rc} timed_out={timed_out} outside any case: {tail[-500:]}")
+            break
+        if timed_out and task.run["flavour"] in ("tsan", "tsanomp") and "WARNING: ThreadSanitizer" in getattr(task, "stderr_all", ""):
+            # the process had already printed a race report (attributed to its case from the log below); a runtime that stalls
+            # afterwards - typically on its own report lock once the race has corrupted memory - is not evidence of a hang in
+            # the library, and the rest of this shard adds nothing to the verdict
+            task.inconclusive.append(f"{task.label}: worker stalled in case {open_case} after ThreadSanitizer had reported; rest of the shard not run")
             break
         if timed_out:
             # a case that makes no progress: re-run that case alone once (a single case normally takes seconds) before
@@ -320,7 +347,7 @@ def run_check(prop, tier, seed):
             ty = rec.get("t")
             if ty == "violation":
                 rec["engine"], rec["flavour"] = eng, flav
-                if "spec" not in rec and not t.corpus_spec and n_predumps < 12 and rec.get("kind") in ("asan_report", "tsan_report", "unexpected_exception"):
+                if "spec" not in rec and not t.corpus_spec and n_predumps < 12 and eng != "concurrent" and rec.get("kind") in ("asan_report", "tsan_report", "unexpected_exception"):
                     n_predumps += 1
                     spec = predump(t, prop, tier, seed, rec.get("config"), rec.get("case"))
                     if spec:
@@ -356,7 +383,7 @@ def run_check(prop, tier, seed):
             v = dict(t="violation", prop=prop, engine=eng, flavour=flav, config=cfgname, case=c["case"],
                      seed=seed, kind=c["kind"], region="", detail=dict(returncode=c["rc"]),
                      stderr=c["stderr"][-3000:], gen=gen, x=t.run.get("x", {}))
-            if not t.corpus_spec and n_predumps < 12:
+            if not t.corpus_spec and n_predumps < 12 and eng != "concurrent":  # concurrent cases have no input witness beyond (seed, config, case)
                 n_predumps += 1
                 spec = predump(t, prop, tier, seed, cfgname, c["case"])
                 if spec:
@@ -522,10 +549,22 @@ def predump(task, prop, tier, seed, config, case):
     args = base_args(task.run, prop, tier, seed) + ["--config", config, "--case", str(case), "--x-predump", "1", "--out", out]
     env = dict(os.environ)
     env.update(build.FLAVOURS[task.run["flavour"]]["env"])
-    try:
-        subprocess.run([task.exe] + args, env=env, cwd=RUNDIR, stdout=subprocess.DEVNULL, stderr=subprocess.DEVNULL, timeout=600)
-    except subprocess.TimeoutExpired:
-        pass
+    # the record is written before the risky part of the case: stop the worker as soon as it is there (a crashing case may
+    # equally hang under a sanitizer), and never wait longer than one case watchdog
+    p = subprocess.Popen([task.exe] + args, env=env, cwd=RUNDIR, stdout=subprocess.DEVNULL, stderr=subprocess.DEVNULL)
+    t0 = time.time()
+    while p.poll() is None and time.time() - t0 < CASE_TIMEOUT[tier]:
+        time.sleep(0.5)
+        try:
+            with open(out, errors="replace") as f:
+                data = f.read()
+            if '"predump"' in data and data.endswith("\n"):
+                break
+        except OSError:
+            pass
+    if p.poll() is None:
+        p.kill()
+    p.wait()
     t = Task(task.run, 0, 1, task.exe, "predump")
     parse_out(out, t)
     for r in t.records:
